@@ -54,6 +54,12 @@ def strategy(tier):
             a, _ = draw(FREE)
             n = draw(DEG if op == "root" else N)
             mag = draw(POS if op == "root" else (NZ if op == "pow" else MAG))
+            if op == "root" and draw(st.booleans()):
+                # exact n-th powers (where a root comes out "round") in all three magnitude types
+                b = draw(st.sampled_from([2, 3, 4, 10]))
+                v = b ** abs(n)
+                t = draw(st.sampled_from(["int", "float", "dec"]))
+                mag = {"t": t, "v": v if t == "int" else (float(v) if t == "float" else str(v))}
             return {"op": op, "a": {"mag": mag, "terms": a}, "n": n}
         same = draw(convgen.INT10) < 5
         if op in ("mul", "div", "rmul", "rdiv"):
@@ -69,6 +75,26 @@ def strategy(tier):
         return {"op": op, "a": {"mag": draw(MAG), "terms": a}, "b": {"kind": "q", "mag": draw(MAG), "terms": b}}
 
     return mix()
+
+
+def enumerate_cases(tier):
+    """a small systematic grid for the unary operators: exact n-th powers and ordinary values in
+    all three magnitude types over plain, prefixed and compound units"""
+    out = []
+    units = [[["", "meter", 1]], [["kilo", "gram", 1]], [["", "meter", 1], ["", "second", -2]], [["milli", "liter", 2]]]
+    for terms in units:
+        for t in ("int", "float", "dec"):
+            for b in (2, 3, 10, 7):
+                for n in (1, 2, 3, 4, -2, -3):
+                    v = b ** abs(n)
+                    mag = {"t": t, "v": v if t == "int" else (float(v) if t == "float" else str(v))}
+                    out.append({"op": "root", "a": {"mag": mag, "terms": terms}, "n": n})
+                    mag2 = {"t": t, "v": b if t == "int" else (b + 0.5 if t == "float" else str(b) + ".25")}
+                    out.append({"op": "root", "a": {"mag": mag2, "terms": terms}, "n": n})
+                    out.append({"op": "pow", "a": {"mag": mag2, "terms": terms}, "n": n})
+            for op in ("neg", "pos", "abs"):
+                out.append({"op": op, "a": {"mag": {"t": t, "v": -3 if t == "int" else (-2.5 if t == "float" else "-1.25")}, "terms": terms}, "n": 1})
+    return out
 
 
 def _dim(c, terms):
